@@ -161,7 +161,7 @@ CHECKS = {
             plain("regress", "^TestRegressC07"),
             rapid("context", "^TestC07Context$", 4000, 4),
             rapid("slogtree", "^TestC07Slog$", 3000, 2),
-            rapid("lazyfirstuse", "^TestC07LazyFirstUse$", 120, 2),
+            rapid("lazyfirstuse", "^TestC07LazyFirstUse$", 120, 2, timeout=120, shrinktime="5s"),
             rapid("longchain", "^TestC07LongChain$", 120, 2, timeout=300, shrinktime="5s"),
         ],
         "thorough": [
